@@ -131,6 +131,60 @@ def mc_cases(chk, rng, n):
                     chk.fail("C14:monte_carlo:frame", "an entry that was never visited changed", {"case": case, "entry": [s, a]})
 
 
+def planning_cases(chk, rng, n):
+    """dynaq.planning on a learned model and a non-zero table: every replay applies the greedy-successor update to the table as
+    the previous replay left it (sequential), on the replayed (s, a) drawn by the key"""
+    import jax
+    import jax.numpy as jnp
+    from rl_blox.algorithm import dynaq
+    exprs, recs = [], []
+    for k in range(n):
+        ns, na = int(rng.integers(2, 5)), int(rng.integers(1, 4))
+        counter = dynaq.Counter(
+            transition_counter=[[[0 for _ in range(ns)] for _ in range(na)] for _ in range(ns)],
+            reward_history=[[[[] for _ in range(ns)] for _ in range(na)] for _ in range(ns)])
+        model = dynaq.ForwardModel(transition=jnp.zeros((ns, na, ns)), reward=jnp.zeros((ns, na, ns)))
+        hist, obs_buf, act_buf = [], [], []
+        for _ in range(int(rng.integers(2, 12))):
+            s, a = int(rng.integers(0, ns)), int(rng.integers(0, na))
+            s2, r = int(rng.integers(0, ns)), float(rng.integers(-8, 9)) / 4
+            counter = dynaq.counter_update(counter, s, a, r, s2)
+            model = dynaq.model_update(model, counter, s, a, s2)
+            hist.append((s, a, r, s2))
+            obs_buf.append(s)
+            act_buf.append(a)
+        n_plan = int([1, 2, 4, 6][k % 4])
+        g, lr = float(rng.choice([0.5, 0.75, 1.0])), float(rng.choice([0.25, 0.5, 1.0]))
+        q0 = (rng.integers(-8, 9, size=(ns, na)) / 4).astype(np.float32)
+        key = jax.random.key(int(rng.integers(0, 1000)))
+        out = np.asarray(dynaq.planning(model.transition, model.reward, jnp.asarray(obs_buf, dtype=int), jnp.asarray(act_buf, dtype=int), n_plan, key, g, lr,
+                                        jnp.asarray(q0)), dtype=float)
+        _, sk = jax.random.split(key, 2)
+        idx = np.asarray(jax.random.randint(sk, (n_plan,), 0, len(obs_buf)))
+        samples = [(obs_buf[i], act_buf[i]) for i in idx]
+        T, Rw = np.asarray(model.transition, dtype=float), np.asarray(model.reward, dtype=float)
+        ref = q0.astype(float).copy()
+        for s, a in samples:
+            s2 = int(np.argmax(T[s, a]))
+            ref[s, a] += lr * (Rw[s, a, s2] + g * ref[s2].max() - ref[s, a])
+        case = {"n_states": ns, "n_actions": na, "transitions": hist, "replayed": samples, "gamma": g, "learning_rate": lr, "q_table": q0.tolist()}
+        chk.case(("planning", k, ns, na, n_plan))
+        chk.count("planning_cases")
+        if not np.allclose(out, ref, rtol=1e-5, atol=1e-5):
+            chk.fail("C14:dynaq:planning", "a planning sweep is not the sequence of greedy-successor updates on the replayed model transitions",
+                     {"case": case, "impl": out.tolist(), "expected": ref.tolist()})
+        h_lit = llit(hist, lambda h: f"((({nlit(h[0])}, {nlit(h[1])}), {h[2]!r}), {nlit(h[3])})")
+        exprs.append(
+            f'(let d = List.fold_left (fun d (((s, a), r), s2) -> M.model_update float_ops (M.counter_update d s a r s2) s a s2) '
+            f'(M.dyna_init float_ops {nlit(ns)} {nlit(na)}) {h_lit} in sl (sl sf) (M.planning float_ops d {llit(samples, lambda e: f"({nlit(e[0])}, {nlit(e[1])})")} '
+            f'{g!r} {lr!r} {llit(q0.tolist(), lambda row: llit(row, lambda v: repr(float(v)) if v >= 0 else "(" + repr(float(v)) + ")"))}))')
+        recs.append((case, out))
+    for (case, out), mr in zip(recs, chk.model_eval(exprs, per_file=40)):
+        m = np.array([[parse_f(v) for v in row] for row in mr])
+        if m.shape != out.shape or not np.allclose(out, m, rtol=1e-5, atol=1e-5):
+            chk.disagree("dynaq.planning", {"case": case, "impl": out.tolist(), "model": m.tolist()})
+
+
 def dyna_model_cases(chk, rng, n):
     import jax.numpy as jnp
     from rl_blox.algorithm import dynaq
@@ -285,6 +339,7 @@ def main(chk):
     single_update_cases(chk, rng, 240 if q else 8000)
     mc_cases(chk, rng, 40 if q else 1500)
     dyna_model_cases(chk, rng, 60 if q else 2000)
+    planning_cases(chk, rng, 24 if q else 400)
     recorded_runs(chk, rng, 12 if q else 200)
     chk.sample({"kind": "single updates", "note": "tables of dyadic entries k/4, lr and gamma in {0,1/4,1/2,1}: float32 results are exact and must equal the rational model"})
     return chk.finish(
